@@ -896,6 +896,8 @@ impl<'data, P: Platform> SymbolRequestHandler<'data, P> for ObjectLayoutState<'d
                     self.file_id,
                     section_id,
                 )));
+            #[cfg(wild_verif)]
+            queue.verif_local_push();
         } else if let Some(common_symbol) = local_symbol.as_common() {
             common.allocate(common_symbol.part_id, common_symbol.size);
         }
@@ -1306,6 +1308,33 @@ struct SectionLoadRequest {
     /// The offset of the section within the file's sections. i.e. the same as
     /// object::SectionIndex, but stored as a u32 for compactness.
     section_index: u32,
+}
+
+#[cfg(wild_verif)]
+impl WorkItem {
+    /// Returns (kind, payload) identifying this work item in the verification event log.
+    fn verif_code(self) -> (u64, u64) {
+        match self {
+            WorkItem::LoadGlobalSymbol(s) => (0, s.as_usize() as u64),
+            WorkItem::CopyRelocateSymbol(s) => (1, s.as_usize() as u64),
+            WorkItem::LoadSection(s) => (
+                2,
+                (u64::from(s.file_id.as_u32()) << 32) | u64::from(s.section_index),
+            ),
+            WorkItem::ExportDynamic(s) => (3, s.as_usize() as u64),
+        }
+    }
+}
+
+#[cfg(wild_verif)]
+impl LocalWorkQueue {
+    /// Logs the most recently pushed local work item.
+    fn verif_local_push(&self) {
+        if let Some(item) = self.local_work.last() {
+            let (kind, payload) = item.verif_code();
+            crate::verif_ev!("LPUSH", self.index, kind, payload);
+        }
+    }
 }
 
 impl WorkItem {
@@ -1983,6 +2012,7 @@ impl<'data, P: Platform> GroupActivationInputs<'data, P> {
 
         let mut should_delay_processing = false;
 
+        crate::verif_ev!("ACT_BEGIN", group_index, 0, 0);
         for file in &mut group.files {
             let r = activate::<A>(&mut group.common, file, &mut group.queue, resources, scope)
                 .with_context(|| format!("Failed to activate {file}"));
@@ -1998,18 +2028,22 @@ impl<'data, P: Platform> GroupActivationInputs<'data, P> {
         }
 
         if should_delay_processing {
+            crate::verif_ev!("DELAY_PUSH", group_index, 0, 0);
             resources.delay_processing.push(group).unwrap();
         } else {
             group.do_pending_work::<A>(resources, scope);
         }
 
+        crate::verif_perturb!("window: before activations_remaining");
         let remaining = resources
             .activations_remaining
             .fetch_sub(1, atomic::Ordering::Relaxed)
             - 1;
 
+        crate::verif_ev!("ACT_END", group_index, remaining, 0);
         if remaining == 0 {
             while let Some(group) = resources.delay_processing.pop() {
+                crate::verif_ev!("DELAY_POP", group.queue.index, 0, 0);
                 group.do_pending_work::<A>(resources, scope);
             }
         }
@@ -2122,6 +2156,11 @@ fn queue_initial_group_processing<'data, 'scope, A: Arch>(
 fn unwrap_worker_states<'data, P: Platform>(
     worker_slots: &[Mutex<WorkerSlot<'data, P>>],
 ) -> Vec<GroupState<'data, P>> {
+    #[cfg(wild_verif)]
+    for (i, w) in worker_slots.iter().enumerate() {
+        let slot = w.lock().unwrap();
+        crate::verif_ev!("FINAL_SLOT", i, slot.worker.is_some(), slot.work.len());
+    }
     worker_slots
         .iter()
         .filter_map(|w| w.lock().unwrap().worker.take())
@@ -2136,8 +2175,12 @@ impl<'data, P: Platform> GroupState<'data, P> {
         resources: &'scope GraphResources<'data, '_, P>,
         scope: &Scope<'scope>,
     ) {
+        crate::verif_ev!("RUN_BEGIN", self.queue.index, 0, 0);
         loop {
             while let Some(work_item) = self.queue.local_work.pop() {
+                #[cfg(wild_verif)]
+                let verif_item = work_item.verif_code();
+                crate::verif_ev!("H_BEGIN", self.queue.index, verif_item.0, verif_item.1);
                 let file_id = work_item.file_id(resources.symbol_db);
                 let file = &mut self.files[file_id.file()];
                 if let Err(error) = file.do_work::<A>(
@@ -2147,16 +2190,21 @@ impl<'data, P: Platform> GroupState<'data, P> {
                     &mut self.queue,
                     scope,
                 ) {
+                    crate::verif_ev!("RUN_ERR", self.queue.index, 0, 0);
                     resources.report_error(error);
                     return;
                 }
+                crate::verif_ev!("H_END", self.queue.index, verif_item.0, verif_item.1);
             }
+            crate::verif_perturb!("window: do_pending_work before slot lock");
             {
                 let mut slot = resources.worker_slots[self.queue.index].lock().unwrap();
                 if slot.work.is_empty() {
+                    crate::verif_ev!("PARK", self.queue.index, 0, 0);
                     slot.worker = Some(self);
                     return;
                 }
+                crate::verif_ev!("SWAP", self.queue.index, slot.work.len(), 0);
                 swap(&mut slot.work, &mut self.queue.local_work);
             };
         }
@@ -2261,6 +2309,8 @@ impl LocalWorkQueue {
     ) {
         if file_id.group() == self.index {
             self.local_work.push(work);
+            #[cfg(wild_verif)]
+            self.verif_local_push();
         } else {
             resources.send_work::<A>(file_id, work, resources, scope);
         }
@@ -2327,7 +2377,14 @@ impl<'data, P: Platform> GraphResources<'data, '_, P> {
             let mut slot = self.worker_slots[file_id.group()].lock().unwrap();
             worker = slot.worker.take();
             slot.work.push(work);
+            #[cfg(wild_verif)]
+            {
+                let (kind, payload) = work.verif_code();
+                let taken = u64::from(worker.is_some()) << 8;
+                crate::verif_ev!("SPUSH", file_id.group(), kind | taken, payload);
+            }
         };
+        crate::verif_perturb!("window: send_work after unlock");
         if let Some(worker) = worker {
             scope.spawn(|scope| {
                 verbose_timing_phase!("Work with object");
@@ -3653,6 +3710,8 @@ impl<'data, P: Platform> ObjectLayoutState<'data, P> {
                             self.file_id,
                             object::SectionIndex(i),
                         )));
+                    #[cfg(wild_verif)]
+                    queue.verif_local_push();
                 }
                 SectionSlot::Unloaded(sec) => {
                     if no_gc {
@@ -3662,6 +3721,8 @@ impl<'data, P: Platform> ObjectLayoutState<'data, P> {
                                 self.file_id,
                                 object::SectionIndex(i),
                             )));
+                        #[cfg(wild_verif)]
+                        queue.verif_local_push();
                     } else if sec.start_stop_eligible {
                         let part_id = self.section_part_id(
                             object::SectionIndex(i),
